@@ -1744,6 +1744,8 @@ impl Compiler {
                     argc,
                 });
             }
+            // The instance exists now: initialise this class's own fields
+            self.emit_derived_member_inits()?;
             return Ok(());
         }
 
